@@ -348,6 +348,13 @@ def get_fn(files, rel, qual):
         raise AnchorLost(f"{rel}", "file not found")
     c = [fn for fn in functions(files[rel]) if fn.qual == qual]
     if len(c) != 1:
+        # the function may have been moved (another file of the crate, or into / out of an impl) or its owner renamed:
+        # a function of that *name* that is unique in the crate is the same anchor
+        name = qual.split("::")[-1]
+        root = "impl/src/" if rel.startswith("impl/src/") else rel.split("/")[0] + "/"
+        moved = [fn for r, f in files.items() if r.startswith(root) and (root != "src/" or not r.startswith("impl/")) for fn in functions(f) if fn.name == name and fn.block is not None]
+        if len(c) == 0 and len(moved) == 1:
+            return moved[0]
         raise AnchorLost(f"{rel}::{qual}", f"{len(c)} definitions found")
     return c[0]
 
